@@ -36,6 +36,8 @@ def steps(seed, tier):
         dict(flavor="asan", env=ASAN_ENV, harness="h_util", args=["--mode", "rng"], cases=dict(quick=4097, thorough=4097 * 4), shards=small),
         dict(flavor="asan", env=ASAN_ENV, harness="h_util", args=["--mode", "poll"], cases=dict(quick=200, thorough=15000), seed_off=3, shards=small),
         dict(flavor="asan", env=ASAN_ENV, harness="h_util", args=["--mode", "select"], cases=dict(quick=200, thorough=15000), seed_off=4, shards=small),
+        # threaded poll backend: descriptors registered while the loop sits in poll() (seeded defect C46-2)
+        dict(flavor="asan", env=ASAN_ENV, harness="h_util", args=["--mode", "pollmt"], cases=dict(quick=150, thorough=8000), seed_off=6, shards=small),
         dict(flavor="asan", env=ASAN_ENV, harness="h_util", args=["--mode", "group"], cases=dict(quick=200, thorough=8000), seed_off=5, shards=small),
     ]
 
@@ -49,7 +51,7 @@ def run(tier, seed):
     return generic.run_spec("C46", tier, seed, steps(seed, tier), RULE,
                             required=["wr_states", "wr_evaluations_with_redraw", "wr_result_lowest", "wr_result_highest", "wr_random_tops",
                                       "rng_calls", "rng_zero_length", "rng_positions_checked",
-                                      "e2e_poll_dispatches", "e2e_select_dispatches", "e2e_choices", "e2e_choices_with_redraw",
+                                      "e2e_poll_dispatches", "e2e_select_dispatches", "e2e_mt_registrations_during_wait", "e2e_choices", "e2e_choices_with_redraw",
                                       "e2e_steered_to_raw_maximum", "e2e_range_model_matches", "e2e_started_mid_table",
                                       "group_choices", "group_choices_with_redraw"],
                             assumptions=["bounds are sampled, not enumerated", "a 'draw' is one call of the library's evutil_weakrand_()"],
